@@ -594,15 +594,21 @@ func TestVerifC20(t *testing.T) {
 			nM.close()
 		}
 		// restore onto a store that already holds an account
-		{
+		// (an account exists as soon as one of its keys exists: each way of first use is tried)
+		for uname, use := range map[string]func(ss secretstore.SecretStore){
+			"account-group":     func(ss secretstore.SecretStore) { _, _, _ = ss.GetGroupForAccount() },
+			"account-key-only":  func(ss secretstore.SecretStore) { _, _ = ss.GetAccountPrivateKey() },
+			"proof-key-only":    func(ss secretstore.SecretStore) { _, _ = ss.GetAccountProofPublicKey() },
+			"member-of-a-group": func(ss secretstore.SecretStore) { g, _, _ := NewGroupMultiMember(); _, _ = ss.GetOwnMemberDeviceForGroup(g) },
+		} {
 			nU := c20FreshNode(t, mn)
-			_, _, _ = nU.ss.GetGroupForAccount() // creates an account
+			use(nU.ss)
 			err, blocked, pnc, _ := c20Restore(nU, archive, 30*time.Second)
-			rep.Case(tag + "/mut/used-store")
+			rep.Case(tag + "/mut/used-store/" + uname)
 			if pnc != nil {
 				rep.Violate("C20/restore-panic/used-store", fmt.Sprintf("%v", pnc), tag)
 			} else if err == nil && !blocked {
-				rep.Violate("C20/mutated-archive-accepted/used-store", "restoring onto a store that already holds an account succeeded", tag)
+				rep.Violate("C20/mutated-archive-accepted/used-store", "restoring onto a store that already holds an account ("+uname+") succeeded", tag)
 			} else {
 				rep.Count("mutations_rejected", 1)
 			}
